@@ -9,13 +9,15 @@ open PsdVerif PsdVerif.Codec
 
 /-! ## channel data -/
 
-theorem readPy_refreshed (n : Nat) : readPy (((2 + n : Nat) : Int) - 2) = readUpTo n := by
+theorem readPy_refreshed (n : Nat) {d : B} {p : Nat} (h : p + n ≤ d.length) :
+    readPy (((2 + n : Nat) : Int) - 2) d p = readUpTo n d p := by
   have e : (((2 + n : Nat) : Int) - 2) = (n : Int) := by omega
   rw [e]
   unfold readPy
   have : ¬ ((n : Int) < 0) := by omega
   rw [if_neg this]
-  simp
+  simp only [Int.toNat_natCast]
+  rw [if_neg (not_overflows_of_le (by omega))]
 
 theorem ChannelData.length_encT (c : ChannelData) : c.encT.length = 2 + c.data.length := by
   simp [ChannelData.encT, length_beBytes]
@@ -28,7 +30,8 @@ theorem ChannelData.dec_at {c : ChannelData} (hwf : c.WF) {d : B} {p : Nat} (hat
   obtain ⟨e1, hat⟩ := readU_step hat (hc _ hwf)
   have e2 := readUpTo_at hat
   have hwf' : c.compression ∈ G.compressions := hwf
-  simp only [ChannelData.dec, bind, Except.bind, e1, readPy_refreshed, e2, Nat.add_assoc]
+  have e2' := readPy_refreshed c.data.length (d := d) (p := p + 2) hat.bound
+  simp only [ChannelData.dec, bind, Except.bind, e1, e2', e2, Nat.add_assoc]
   rw [if_pos hwf']
 
 theorem ChannelData.encP_eq (c : ChannelData) : c.encP = (c.encT, c.encT.length) := by
@@ -201,12 +204,14 @@ theorem LayerInfo.dec_step {v pad : Nat} {li : LayerInfo} (hwf : li.WF v pad) {d
   · simp only [h0, if_true] at hwf hat ⊢
     have hpos : (0 : Nat) < 256 ^ secW v := Nat.pow_pos (by decide)
     have e1 := readU_at hat hpos
+    have hno : ¬ overflows (p + secW v) d :=
+      not_overflows_of_le (by have := hat.bound; simp only [length_beBytes] at this; omega)
     obtain ⟨n, rs, css⟩ := li
     simp only at h0 hwf
     obtain ⟨rfl, rfl⟩ := hwf
     subst h0
     simp only [LayerInfo.dec, bind, Except.bind, e1, if_true, LayerInfo.refresh, length_beBytes, Nat.add_zero,
-      Nat.le_refl]
+      Nat.le_refl, if_neg hno]
   · simp only [h0, if_false] at hwf hat ⊢
     obtain ⟨n, rs, css⟩ := li
     simp only at h0 hwf hat ⊢
@@ -250,6 +255,8 @@ theorem LayerInfo.dec_step {v pad : Nat} {li : LayerInfo} (hwf : li.WF v pad) {d
           simp only [zeros, List.replicate_zero, List.nil_append, List.append_assoc] at hat
           obtain ⟨e1, hat⟩ := readU_step hat g4
           have hat := hat.left
+          have hno : ¬ overflows (p + secW v + body.length) d :=
+            not_overflows_of_le (by have := hat.bound; omega)
           rw [hbody] at hat
           obtain ⟨e2, hat⟩ := readI16_step hat g1
           obtain ⟨e3, hat⟩ := readCount_step (LayerRecord.dec v) (LayerRecord.encT v) (r1 :: R1)
@@ -263,7 +270,7 @@ theorem LayerInfo.dec_step {v pad : Nat} {li : LayerInfo} (hwf : li.WF v pad) {d
           have hle : p + secW v + 2 + (listT (LayerRecord.encT v) (r1 :: R1)).length +
               (channelImageT (c0 :: css0)).length ≤ p + secW v + body.length := by
             rw [hbody]; simp only [List.length_append, length_i16T]; omega
-          rw [if_pos hle]
+          rw [if_pos hle, if_neg hno]
           simp only [length_lenBlockT, padAmount_one]
           congr 2
           omega
@@ -388,12 +395,14 @@ theorem LayerAndMask.dec_at {v pad : Nat} {x : LayerAndMask} (hwf : x.WF v pad) 
   simp only [zeros, List.replicate_zero, List.nil_append, List.append_assoc] at hat
   obtain ⟨e1, hat⟩ := readU_step hat hfb
   have hat := hat.left
+  have hno : ¬ overflows (p + secW v + (x.bodyT v pad).length) d :=
+    not_overflows_of_le (by have := hat.bound; omega)
   obtain ⟨li, g, ts⟩ := x
   simp only at hrest
   cases li with
   | none =>
     obtain ⟨rfl, rfl⟩ := hrest
-    simp only [LayerAndMask.dec, bind, Except.bind, e1]
+    simp only [LayerAndMask.dec, bind, Except.bind, e1, if_neg hno]
     simp [LayerAndMask.bodyT, optT', LayerAndMask.refresh]
   | some li =>
     simp only at hrest
@@ -421,7 +430,8 @@ theorem LayerAndMask.dec_at {v pad : Nat} {x : LayerAndMask} (hwf : x.WF v pad) 
         subst this
         simp only [optT', taggedBlocksT, listT, List.length_nil, Nat.add_zero] at hat hblen
         have hgate : ¬ (p + secW v + (li.encT v pad).length + 4 ≤ p + secW v + body.length) := by omega
-        simp only [LayerAndMask.dec, LayerAndMask.bodyDec, bind, Except.bind, e1, if_neg hne, e2, if_neg hgate]
+        simp only [LayerAndMask.dec, LayerAndMask.bodyDec, bind, Except.bind, e1, if_neg hne, e2, if_neg hgate,
+          if_neg hno]
         simp [LayerAndMask.refresh, Nat.add_assoc]
       | some g =>
         simp only [optProp] at hg
@@ -439,7 +449,8 @@ theorem LayerAndMask.dec_at {v pad : Nat} {x : LayerAndMask} (hwf : x.WF v pad) 
           apply taggedBlocksDec_at (Or.inr (Or.inr rfl)) hts (some _) hat.nil_right.left
           · intro e he; cases he; omega
           · simp only [taggedCond, hpe]; simp
-        simp only [LayerAndMask.dec, LayerAndMask.bodyDec, bind, Except.bind, e1, if_neg hne, e2, if_pos hgate, e3, e4]
+        simp only [LayerAndMask.dec, LayerAndMask.bodyDec, bind, Except.bind, e1, if_neg hne, e2, if_pos hgate, e3, e4,
+          if_neg hno]
         simp [LayerAndMask.refresh, Nat.add_assoc]
 
 /-! ## the whole file -/
